@@ -1,33 +1,20 @@
 (* C08 — Outcome is schedule-independent; stream calls are never made concurrently.
    Theorems about the goroutine-level LTS (Model/Lts.v); proofs in
-   Proofs/Lts{Inv,Safe,C08,Tok,Content,Content2,Content3}.v.
+   Proofs/Lts{Inv,Safe,C08,Tok,Content,Content2,Content3,Clean1..5}.v.
    Data races / the Go memory model are outside the model (see props/C08.json).
 
-   FULL STATEMENT of outcome_deterministic (not proved in full, see the _partial theorem):
-
-     forall p ls1 ls2 st1 st2,
-       (forall i e, nth_error (p_entries p) i = Some e -> e_kind e = ENeed -> e_file e = true) ->
-       fault_free ls1 -> fault_free ls2 ->
-       run p (init p) ls1 = Some st1 -> run p (init p) ls2 = Some st2 ->
-       final st1 = true -> final st2 = true ->
-       send_ret st1 = send_ret st2 /\ recv_ret st1 = recv_ret st2 /\
-       Permutation (completed st1) (completed st2) /\ Permutation (reqs st1) (reqs st2) /\
-       Permutation (written st1) (written st2)
-
-   where fault_free ls = no label of ls is a fault, a cancellation, a stream failure or a
-   tear-down (LEnvCloseSend, the transport's EOF after Send returned, is allowed).
-   Proved below (outcome_deterministic_partial): the same conclusion for ANY two executions
-   (all interleavings, all capacities and worker counts, faults other than an Open error
-   allowed) that end with Receive returning nil: the sequence of requests, the sequence of
-   completed files and the sequence of written chunks are permutations of each other, and
-   they are given by sequential functions of the parameters (need_ids, expected_chunks).
-   Not proved: that a complete fault-free run always returns nil on both sides (no spurious
-   "invalid file id" / "invalid file request" in the model), which is what would replace the
-   hypothesis "Receive returned nil" by "complete and fault-free".  An Open error must be
-   excluded: with it the statement is false (known finding open-error-empty-file-success). *)
+   outcome_deterministic is proved in full on the LTS: two complete fault-free executions from
+   the same initial state (fault_free ls = no label of ls is a fault, a cancellation, a stream
+   failure or a tear-down; LEnvCloseSend, the transport's EOF after Send returned, is allowed)
+   return the same values (nil, nil) and their request, completion and written-chunk sequences
+   are permutations of each other.  The proof goes through fault_free_success (a fault-free run
+   never takes an error branch: token conservation and request accounting per file id) and
+   outcome_deterministic_partial (what any run that ends with Receive returning nil has
+   requested, completed and written).  Not in the LTS: notification digests (C05); an Open error
+   must be excluded from the partial statement (known finding open-error-empty-file-success). *)
 From Coq Require Import List Arith Bool PeanoNat Permutation.
 From FS Require Import Model.Lts Model.LtsExplore Proofs.LtsInv Proofs.LtsSafe Proofs.LtsC08 Proofs.LtsTok
-  Proofs.LtsContent Proofs.LtsContent2 Proofs.LtsContent3.
+  Proofs.LtsContent Proofs.LtsContent2 Proofs.LtsContent3 Proofs.LtsClean1 Proofs.LtsClean3 Proofs.LtsClean5.
 Import ListNotations.
 
 (* In every reachable state at most one goroutine per side is inside Stream.SendMsg
@@ -111,6 +98,26 @@ Theorem outcome_deterministic_partial : forall p ls1 ls2 st1 st2,
   Permutation (written st1) (written st2).
 Proof. exact outcome_deterministic_runs_proof. Qed.
 
+(* A fault-free run never fails: when it is complete both calls have returned nil. *)
+Theorem fault_free_success : forall p ls st, wf_params p -> fault_free ls ->
+  run p (init p) ls = Some st -> final st = true ->
+  send_ret st = Some true /\ recv_ret st = Some true.
+Proof. exact fault_free_success_proof. Qed.
+
+(* outcome_deterministic: two complete fault-free executions from the same initial state end
+   with equal return values and with the same requests, completed files and written chunks (up
+   to order) — for all interleavings of workers, writers and packet deliveries, every W, P, C,
+   C2 and stream capacity.  wf_params: an entry whose content is requested is a regular file. *)
+Theorem outcome_deterministic : forall p ls1 ls2 st1 st2,
+  wf_params p -> fault_free ls1 -> fault_free ls2 ->
+  run p (init p) ls1 = Some st1 -> run p (init p) ls2 = Some st2 ->
+  final st1 = true -> final st2 = true ->
+  send_ret st1 = send_ret st2 /\ recv_ret st1 = recv_ret st2 /\
+  Permutation (completed st1) (completed st2) /\
+  Permutation (reqs st1) (reqs st2) /\
+  Permutation (written st1) (written st2).
+Proof. exact outcome_deterministic_proof. Qed.
+
 Print Assumptions send_mutex_inv.
 Print Assumptions single_recv.
 Print Assumptions payload_consumed_before_reuse.
@@ -119,6 +126,8 @@ Print Assumptions success_sets_equal.
 Print Assumptions completed_at_most_once.
 Print Assumptions success_content_is_sequential.
 Print Assumptions outcome_deterministic_partial.
+Print Assumptions fault_free_success.
+Print Assumptions outcome_deterministic.
 Print Assumptions requested_at_most_once.
 Print Assumptions success_requests_permutation.
 
